@@ -12,6 +12,8 @@ A part is either
 DEFAULT_INVARIANTS = ["RetRefines", "InspConsistent", "CursorInBounds", "ResultContract", "FurthestFailure", "NoPanic", "StepBound"]
 
 ALL_ETYS = ["rich", "simple", "cheap", "empty"]
+INV_SPANS = DEFAULT_INVARIANTS + ["SpansWellFormed"]
+ALL_KINDS = ["str", "slice", "array", "stream", "bstream", "mapped", "mstream", "wctx", "mapspan", "io", "bytes"]
 # left-recursive grammars have no PEG denotation (the reference would not terminate): machine-only invariants
 NO_DEN = ["InspConsistent", "CursorInBounds", "NoPanic", "StepBound"]
 
@@ -52,6 +54,24 @@ PLANS = {
     "C06": {
         "quick": [ex("err3", "err", 3, 3, etys=["rich"], modes=["E"]), ex("err2", "err", 2, 3, etys=ALL_ETYS), rec("errR", "err", 1500, 8, 8, etys=ALL_ETYS)],
         "thorough": [ex("err3", "err", 3, 4, etys=["rich", "simple"]), ex("err2", "err", 2, 4, etys=ALL_ETYS), rec("errR", "err", 30000, 10, 10, etys=ALL_ETYS)],
+    },
+    "C07": {
+        "quick": [ex("spn3", "spn", 3, 3, alphabet=["a", "b", "E"], kinds=["str"], invariants=INV_SPANS),
+                  ex("spng3", "spng", 3, 3, kinds=["mapped", "mstream"], modes=["E"], invariants=INV_SPANS),
+                  ex("spn2", "spn", 2, 3, kinds=["slice", "array", "bytes"], modes=["E"], invariants=INV_SPANS),
+                  rec("spnR", "spn", 1500, 8, 8, kinds=["str", "slice"]), rec("spngR", "spng", 1500, 8, 8, kinds=["mapped", "mstream", "stream"])],
+        "thorough": [ex("spn3", "spn", 3, 4, alphabet=["a", "b", "E"], kinds=["str"], invariants=INV_SPANS),
+                     ex("spng3", "spng", 3, 4, kinds=["mapped", "mstream"], modes=["E"], invariants=INV_SPANS),
+                     ex("spn3s", "spn", 3, 3, kinds=["slice", "bytes"], modes=["E"], invariants=INV_SPANS),
+                     rec("spnR", "spn", 20000, 10, 10, kinds=["str", "slice"]), rec("spngR", "spng", 20000, 10, 10, kinds=["mapped", "mstream", "stream"])],
+    },
+    "C10": {
+        "quick": [ex("peg2k", "peg", 2, 2, kinds=ALL_KINDS, modes=["E"]), ex("rep2k", "rep", 2, 3, alphabet=["a", ","], kinds=["stream", "mapped", "io"], modes=["E"]),
+                  ex("rcv2k", "rcv", 2, 3, kinds=["bstream", "mstream", "wctx"], modes=["E"]),
+                  rec("pegRk", "peg", 2500, 8, 8, kinds=ALL_KINDS)],
+        "thorough": [ex("peg2k", "peg", 2, 3, kinds=ALL_KINDS), ex("rep2k", "rep", 2, 4, alphabet=["a", ","], kinds=ALL_KINDS, modes=["E"]),
+                     ex("rcv3k", "rcv", 3, 3, kinds=["bstream", "mstream", "wctx", "io"], modes=["E"]),
+                     rec("pegRk", "peg", 30000, 10, 10, kinds=ALL_KINDS)],
     },
     "C08": {
         "quick": [ex("rcv3", "rcv", 3, 3), rec("rcvR", "rcv", 1500, 8, 8)],
